@@ -244,7 +244,8 @@ def rule_raise_table(model: Model) -> list[Ob]:
                 obs.append(Ob("RAISE-TABLE", f"{fn}:RAISE-TABLE:{exc or 'any'}:{'+'.join(sorted(need))}", ERROR, "", fn,
                               f"function {fn} of the confirmed raise table vanished"))
             continue
-        f = model.func(fn)
+        from ..inline import inlined
+        f = inlined(model, model.func(fn))      # raises moved into private helpers by an extract-method refactoring are read in place
         raises = raises_with_inner_guard(model, f)
         used = set()
         import builtins as _b
